@@ -1,6 +1,6 @@
 """C16 - options change the presentation, never the findings: cli-sim over the option lattice (DESIGN 4.16).
 
-The simulator varies the *configuration* of the run: every one of the 144 option vectors
+The simulator varies the *configuration* of the run: every one of the 216 option vectors
 {--no-colors} x {-f json|humanized} x {-o} x {none,-d,-dd} x {none,-R <word>,-R CheckDefine} x {file on disk, inline}
 for each sampled workload file, plus the input channel (disk read through the open seam vs argv)."""
 import copy
@@ -18,7 +18,7 @@ WORDS = ["Whatever", "CheckForbiddenSourceHeader", "checkdefine", "CheckDefineX"
 def vectors(word):
     out = []
     for nocol, fmt, o, dbg, R, inline in itertools.product((0, 1), ("humanized", "json"), (0, 1), (0, 1, 2), (None, "word", "CheckDefine"),
-                                                           (0, 1)):
+                                                           (0, 1, 2)):
         out.append({"nocol": nocol, "fmt": fmt, "o": o, "dbg": dbg, "R": (word if R == "word" else R), "Rkind": R, "inline": inline})
     return out
 
@@ -40,7 +40,10 @@ def argv_of(v, name, content):
     if v["R"] is not None:
         a += ["-R", v["R"]]
     if v["inline"]:
+        # inline 1: the flag matching the name's type; inline 2: the other flag - with --filename the name decides
         flag = "--hfile" if name.endswith(".h") else "--cfile"
+        if v["inline"] == 2:
+            flag = "--cfile" if flag == "--hfile" else "--hfile"
         a += [f"{flag}={content}", f"--filename={name}"]
     else:
         a.append(name)
@@ -80,7 +83,7 @@ class C16(Engine):
     name = "cli-sim"
     level = "exploration"
     expected_kinds = {"options", "channel_inline", "R_CheckDefine", "R_word", "debug", "format_json", "only_filename", "no_colors"}
-    rule_text = ("For every sampled workload file (all classes, both file types) ALL 144 option vectors are executed through the real "
+    rule_text = ("For every sampled workload file (all classes, both file types) ALL 216 option vectors are executed through the real "
                  "main(); the reference vector is `--no-colors -f humanized`, file on disk. Non-trivial = both the reference and the "
                  "variant reached a verdict (so (a) is comparable); distinct = distinct (option vector, file class) pairs among those. "
                  "The option lattice is exhaustive per file; the files are sampled.")
@@ -109,7 +112,7 @@ class C16(Engine):
         rng.shuffle(emits)
         withdef = emits[: max(6, len(emits) // 2 if not q else 8)] + hasdef
         rng.shuffle(cands)
-        n = 60 if q else 1200
+        n = 48 if q else 1200
         chosen = withdef[: n // 3]
         for cls, k in (("fatal", n // 8), ("notice", n // 12), ("clean", n // 6)):
             chosen += [f for f in cands if P.cls[f] == cls and f not in chosen][:k]
@@ -293,7 +296,7 @@ class C16(Engine):
         self.stats["comparable_pairs"] = self.comparable
 
     def coverage(self):
-        return {"option_vectors_per_file": 144, "files": len(self.chosen), "exhaustive_part": "option lattice exhaustive per file",
+        return {"option_vectors_per_file": 216, "files": len(self.chosen), "exhaustive_part": "option lattice exhaustive per file",
                 "fidelity_subprocess_runs": getattr(self, "fidelity_runs", 0)}
 
     def fidelity(self):
@@ -304,7 +307,7 @@ class C16(Engine):
         for i in range(5):
             fid = self.chosen[rng.randrange(len(self.chosen))]
             f = P.files[fid]
-            v = vectors("Whatever")[rng.randrange(144)]
+            v = vectors("Whatever")[rng.randrange(216)]
             if v["dbg"] == 2:
                 v["dbg"] = 1
             scs.append({"tree": {f["name"]: "@" + fid}, "ops": [{"op": "cli", "argv": argv_of(v, f["name"], f["content"])}]})
